@@ -59,8 +59,8 @@ PROPS = {
 }
 
 PROPS["C19"] = {
-    "lean": ["PP.Props.C19"],
-    "what": "Argument augmentation: decode_encode (for every list of typed values within their ranges - bool, sized/unsized ints, uintptr/byte/rune, float32/64 bit patterns, strings, slices, pointers, maps, channels, funcs - decoding the words the runtime prints under -N -l with the parameter type names gives the spec rendering of the values), twos_round_trip, mismatch_harmless / augmentCall_total (every type list, arity and argument tree: total, never out of fuel, the only error is Go's own index panic for an empty type list with ellipsis, which extractArgumentsType never produces), cursor_linear (each word consumed at most once), processed_length_le, uint8_untruncated; harness: function-level correspondence on typed and hostile cases, end to end on generated programs compiled with -gcflags '-N -l', crashed and parsed with the sources in place (literal values as ground truth; raw values unchanged), and 11 kinds of mismatching source trees (no panic, nothing but Processed differs).",
+    "lean": ["PP.Props.C19", "PP.Props.C19b"],
+    "what": "Argument augmentation: decode_encode (for every list of typed values within their ranges - bool, sized/unsized ints, uintptr/byte/rune, float32/64 bit patterns, strings, slices, pointers, maps, channels, funcs - decoding the words the runtime prints under -N -l with the parameter type names gives the spec rendering of the values), twos_round_trip, mismatch_harmless / augmentCall_total (every type list, arity and argument tree: total, never out of fuel, the only error is Go's own index panic for an empty type list with ellipsis, which extractArgumentsType never produces), cursor_linear (each word consumed at most once), processed_length_le, uint8_untruncated; the glue around the decoder (Snapshot.augment, augmentGoroutine, loadFile with its cache, lineToByteOffsets, getFuncAST's line check; go/parser as an oracle): augment_values_unchanged (nothing but Processed changes, for every oracle), augment_total, mismatch_leaves_unaugmented (missing / non-.go / unparsable file, line beyond the file, no enclosing function: the call is untouched), load_once (each file is read at most once per run, also when it fails), calls_without_args_skipped, lineToByteOffsets_spec; harness: function-level correspondence on typed and hostile cases, source trees with valid / unparsable / missing / non-Go files against the glue model, end to end on generated programs compiled with -gcflags '-N -l', crashed and parsed with the sources in place (literal values as ground truth; raw values unchanged), and 11 kinds of mismatching source trees (no panic, nothing but Processed differs).",
     "partial": "that the installed compiler and runtime really encode arguments as Spec.encode says is validated on generated programs, not proved; go/parser, getFuncAST and extractArgumentsType are exercised, not modelled (the type list is an input of the model); strconv.FormatFloat is a parameter.",
     "trusted": ["go/parser + the AST walk (type list is an input)", "strconv.FormatFloat", "the compiler's argument layout under -N -l (validated end to end)"],
 }
